@@ -3,6 +3,7 @@ package main
 import (
 	"fmt"
 	"go/ast"
+	"go/token"
 	"go/types"
 	"strings"
 )
@@ -60,8 +61,46 @@ func runC15(c *Ctx) {
 	if s, fd := srcOf(p, ev, "triggerSettings", "currentTriggerExceedsMaxTriggerCount"); fd == nil {
 		r.Unresolved("atomic/rmw-decision", ev+".triggerSettings.currentTriggerExceedsMaxTriggerCount", "method not found")
 	} else {
-		nAdd, nLoad := strings.Count(s, ".triggerCount.Add(1)"), strings.Count(s, ".triggerCount.Load()")
-		okCmp := strings.Contains(s, "(t.triggerCount.Add(1)>t.maxTriggerCount)") && strings.Contains(s, "(t.maxTriggerCount!=0)")
+		// one atomic Add per call, no separate Load, and the returned decision is - with temporaries
+		// and single-expression helpers resolved - the conjunction of `limit set` and
+		// `limit < value returned by that Add` (in any spelling and order)
+		_ = s
+		f := newFuncCFG(p, info, fd.Body, "currentTriggerExceedsMaxTriggerCount")
+		nAdd := len(f.Calls(func(c *ast.CallExpr) bool { return strings.HasSuffix(rawKey(c.Fun), ".triggerCount.Add") }))
+		nLoad := len(f.Calls(func(c *ast.CallExpr) bool { return strings.HasSuffix(rawKey(c.Fun), ".triggerCount.Load") }))
+		okCmp := false
+		recv := fd.Recv.List[0].Names[0].Name
+		for _, pt := range f.Find(func(n ast.Node) bool { _, ok := n.(*ast.ReturnStmt); return ok }) {
+			rs := f.nodeAt(pt).(*ast.ReturnStmt)
+			if len(rs.Results) != 1 {
+				continue
+			}
+			re, rpt := f.Resolve(rs.Results[0], pt)
+			var conj func(e ast.Expr) []ast.Expr
+			conj = func(e ast.Expr) []ast.Expr {
+				e = ast.Unparen(e)
+				if under, ok := astSubst[e]; ok {
+					return conj(under)
+				}
+				if be, ok := e.(*ast.BinaryExpr); ok && be.Op == token.LAND {
+					return append(conj(be.X), conj(be.Y)...)
+				}
+				return []ast.Expr{e}
+			}
+			got := map[string]bool{}
+			for _, c := range conj(re) {
+				if rel, ok := relOfWith(c, func(x ast.Expr) string { return f.KeyAt(x, rpt) }); ok {
+					got[rel.String()] = true
+				} else {
+					got["?"+f.KeyAt(c, rpt)] = true
+				}
+			}
+			want1 := Rel{recv + ".maxTriggerCount", "<", recv + ".triggerCount.Add(1)"}.String()
+			want2 := Rel{"0", "!=", recv + ".maxTriggerCount"}.String()
+			if len(got) == 2 && got[want1] && got[want2] {
+				okCmp = true
+			}
+		}
 		if nAdd == 1 && nLoad == 0 && okCmp {
 			r.Pass("atomic/rmw-decision", ev+".triggerSettings.currentTriggerExceedsMaxTriggerCount", p.posStr(fd.Pos()), "one atomic Add per trigger; the decision uses its result and applies only when a limit is set")
 		} else {
@@ -280,10 +319,21 @@ func checkPromiseEvents(r *Reporter, p *Prog) {
 			r.Unresolved("promise/swap-and-call-outside", key, "method not found")
 			continue
 		}
+		// the locked snapshot section: the function literal (invoked on the spot or through a local
+		// variable) that takes the event mutex
 		var lit *ast.FuncLit
 		ast.Inspect(fd.Body, func(n ast.Node) bool {
-			if cl, ok := n.(*ast.CallExpr); ok && lit == nil {
-				if l, ok := cl.Fun.(*ast.FuncLit); ok {
+			if l, ok := n.(*ast.FuncLit); ok && lit == nil {
+				locks := false
+				ast.Inspect(l.Body, func(m ast.Node) bool {
+					if c, ok := m.(*ast.CallExpr); ok {
+						if op, path := lockOp(info, c); op == "Lock" && strings.HasSuffix(path, ".mutex") {
+							locks = true
+						}
+					}
+					return !locks
+				})
+				if locks {
 					lit = l
 				}
 			}
@@ -291,7 +341,26 @@ func checkPromiseEvents(r *Reporter, p *Prog) {
 		})
 		var bad []string
 		if lit == nil {
-			bad = append(bad, "no locked snapshot section")
+			// no separate section: the callbacks must still not run under the event mutex
+			underLock := ""
+			AnalyzeLocks(fd.Body, LockSet{}, &FlowOpts{Info: info}, func(n ast.Node, stack []ast.Node, held LockSet) {
+				cl, ok := n.(*ast.CallExpr)
+				if !ok || len(held) == 0 {
+					return
+				}
+				if id, isId := ast.Unparen(cl.Fun).(*ast.Ident); isId {
+					if v, isVar := info.Uses[id].(*types.Var); isVar {
+						if _, isFn := v.Type().Underlying().(*types.Signature); isFn {
+							underLock = fmt.Sprintf("%s: the registered callbacks are invoked while holding %s: a callback that registers, unsubscribes or triggers on this event dead-locks, and registrations block until all callbacks have finished", p.posStr(cl.Pos()), held)
+						}
+					}
+				}
+			})
+			if underLock != "" {
+				bad = append(bad, underLock)
+			} else {
+				bad = append(bad, "no locked snapshot section that swaps the callback map")
+			}
 		} else {
 			lf := newFuncCFG(p, info, lit.Body, key)
 			isSwap := func(n ast.Node) bool {
@@ -325,8 +394,15 @@ func checkPromiseEvents(r *Reporter, p *Prog) {
 			// callbacks invoked outside the lock: the loop body call is outside the literal
 			invokedInside := false
 			ast.Inspect(lit.Body, func(n ast.Node) bool {
-				if cl, ok := n.(*ast.CallExpr); ok && exprKey(cl.Fun) == "callback" {
-					invokedInside = true
+				if cl, ok := n.(*ast.CallExpr); ok {
+					// a call through a function-typed variable (a registered callback)
+					if id, isId := ast.Unparen(cl.Fun).(*ast.Ident); isId {
+						if v, isVar := info.Uses[id].(*types.Var); isVar {
+							if _, isFn := v.Type().Underlying().(*types.Signature); isFn {
+								invokedInside = true
+							}
+						}
+					}
 				}
 				return true
 			})
@@ -493,8 +569,36 @@ func checkValueNotifier(r *Reporter, p *Prog) {
 			}
 			return true
 		})
-		if n == 2 && ok {
-			r.Pass("ident/unregister-own-entry", pkg+".Notifier.Listener", p.posStr(fd.Pos()), "both deregistration closures pass the entry they were registered with")
+		// every listener handed out is counted: on every path to newListener(...) the shared entry
+		// was either created here (with its count initialised) or its count was incremented
+		lfn := newFuncCFG(p, info, fd.Body, pkg+".Notifier.Listener")
+		counted := func(nd ast.Node) bool {
+			switch x := nd.(type) {
+			case *ast.IncDecStmt:
+				return x.Tok == token.INC && fieldSel(info, x.X, "count")
+			case *ast.AssignStmt:
+				return len(x.Lhs) == 1 && fieldSel(info, x.Lhs[0], "count") && (x.Tok == token.ADD_ASSIGN)
+			case *ast.CompositeLit:
+				return shortTypeName(typeName(info.TypeOf(x))) == "listener"
+			}
+			return false
+		}
+		uncounted := ""
+		for _, pt := range lfn.Find(func(nd ast.Node) bool {
+			cl, isCall := nd.(*ast.CallExpr)
+			return isCall && rawKey(cl.Fun) == "newListener"
+		}) {
+			if w, found := lfn.PathFromEntryAvoiding(pt, counted, nil); found {
+				uncounted = lfn.PosOf(pt) + ": a listener is handed out without being counted on its entry (" + strings.Join(w, " -> ") + "): the first listener that leaves closes the channel under the others"
+			}
+		}
+		if uncounted != "" {
+			r.Fail("notifier/listener-counted", pkg+".Notifier.Listener", p.posStr(fd.Pos()), uncounted)
+		} else {
+			r.Pass("notifier/listener-counted", pkg+".Notifier.Listener", p.posStr(fd.Pos()), "joining an entry increments its count, creating one initialises it")
+		}
+		if n >= 1 && ok {
+			r.Pass("ident/unregister-own-entry", pkg+".Notifier.Listener", p.posStr(fd.Pos()), "every deregistration closure passes the entry it was registered with")
 		} else {
 			r.Fail("ident/unregister-own-entry", pkg+".Notifier.Listener", p.posStr(fd.Pos()), "each deregistration closure must hand its own entry to removeListener")
 		}
